@@ -330,10 +330,14 @@ def ring_equal(a, b):
 
 
 def impl_for(line):
+    if line.startswith('hull.derived'):
+        return impl_derived
     return impl_z if line.startswith('hull.z') else impl
 
 
 def spec_for(line):
+    if line.startswith('hull.derived'):
+        return spec_derived
     return spec_z if line.startswith('hull.z') else spec
 
 
@@ -518,6 +522,52 @@ def gen_wrappers(run, n, wide=False):
     return lines
 
 
+
+# ---- support stream (no model): hull of *derived* collections after the receiver's cached hull was read ----------------
+# (seeded change C10-n1: copy()/__add__ built with copy.copy() carried the cached_property along)
+
+def impl_derived(line):
+    import random as _r
+    from datetime import datetime, timedelta, timezone
+    from geostructures import Coordinate, FeatureCollection, GeoLineString, GeoPoint, Track
+    _op, kind, how, seed = line.split()
+    rng = _r.Random(int(seed))
+    t0 = datetime(2021, 3, 1, tzinfo=timezone.utc)
+
+    def member(i):
+        x, y = rng.randint(-200, 200) / 8, rng.randint(-200, 200) / 8
+        dt = t0 + timedelta(hours=rng.randint(0, 40))
+        if rng.random() < 0.6:
+            return GeoPoint(Coordinate(x, y), dt=dt, properties={'i': i})
+        return GeoLineString([Coordinate(x, y), Coordinate(x + rng.randint(1, 9) / 8, y + rng.randint(-9, 9) / 8)], dt=dt, properties={'i': i})
+    cls = Track if kind == 'T' else FeatureCollection
+    col = cls([member(i) for i in range(rng.randint(3, 9))])
+    col.convex_hull                                 # the receiver's hull is cached from here on
+    cut = t0 + timedelta(hours=rng.randint(5, 35))
+    if how == 'add':
+        r = col + cls([member(90 + i) for i in range(rng.randint(1, 4))])
+    elif how == 'copy':
+        r = col.copy()
+        r.geoshapes.append(member(98))
+        if kind == 'T':
+            r = Track(r.geoshapes)
+    elif how == 'fprop':
+        r = col.filter_by_property('i', lambda v: v % 2 == 0)
+    elif how == 'slice':
+        r = col[cut:] if rng.random() < 0.5 else col[:cut]
+    else:
+        raise ValueError(how)
+    if not r.geoshapes:
+        return 'OK empty'
+    twin = cls(list(r.geoshapes))
+    got, want = r.convex_hull, twin.convex_hull
+    return 'OK' if got == want else f'STALE hull of {len(got.outline)} vertices, a fresh collection of the same members gives {len(want.outline)}'
+
+
+def spec_derived(_line):
+    return 'OK'
+
+
 def check(run):
     run.prove(MODULE, THEOREMS)
     rng = run.rng
@@ -569,6 +619,27 @@ def check(run):
         lines.append(f'{op} ' + fmt_pts(moved))
     run.run_cases('scaled-and-translated', lines, impl, spec, tag=tag_line, spec_compare=ring_equal)
 
+    # 3c. fine grid, wide spread: exactly collinear runs (and convex position) whose coordinates are multiples of 2**-26
+    #     degrees apart by whole degrees - products of the *absolute* coordinates no longer fit a double, products of
+    #     differences of collinear points still cancel exactly (seeded change C10-n2: shoelace-form cross product)
+    lines = []
+    g = F(1, 2 ** 26)
+    for i in range(run.scale(250, 6000)):
+        ox, oy = g * rng.randint(-70 * 2 ** 26, 60 * 2 ** 26), g * rng.randint(-70 * 2 ** 26, 60 * 2 ** 26)
+        dx, dy = g * rng.randint(-2 ** 20, 2 ** 20), g * rng.randint(-2 ** 20, 2 ** 20)
+        if dx == 0 and dy == 0:
+            dx = g
+        ts = rng.sample(range(0, 64), rng.randint(3, 8))
+        pts = [(ox + dx * t, oy + dy * t) for t in ts]
+        if i % 2:                                   # plus one or two points clearly off the line
+            pts += [(ox + dy * 3 + g * rng.randint(1, 99), oy - dx * 3 + g * rng.randint(1, 99)) for _ in range(rng.choice([1, 2]))]
+        pts = [(x, y) for x, y in pts if abs(x) <= 89 and abs(y) <= 89]
+        if len(pts) < 2:
+            continue
+        rng.shuffle(pts)
+        lines.append(('hull.of ' if i % 3 else 'hull.poly ') + fmt_pts(pts))
+    run.run_cases('fine-grid-wide-spread', lines, impl, spec, tag=tag_line, spec_compare=ring_equal)
+
     # 4. the public wrappers
     lines = gen_wrappers(run, run.scale(1500, 30000))
     lines += ['hull.coll', 'hull.track']
@@ -598,6 +669,17 @@ def check(run):
         lines.append('hull.z ' + ' '.join(toks))
     run.run_cases('np-z-coordinates', lines, impl_z, spec_z, model=False, spec_compare=ring_equal,
                   tag=lambda ln, a: ['z:' + ('checked' if spec_z(ln) is not None else 'planar-degenerate')])
+
+    # derived collections after the receiver's hull was cached (support, no model)
+    lines_d = []
+    for i in range(run.scale(120, 3000)):
+        kind = 'T' if i % 2 else 'F'
+        hows = ['add', 'copy', 'fprop'] + (['slice'] if kind == 'T' else [])
+        lines_d.append(f'hull.derived {kind} {hows[(i // 2) % len(hows)]} {rng.randrange(10 ** 9)}')
+    run.run_cases('np-derived-collection-hull', lines_d, impl_derived, spec_derived, model=False,
+                  spec_compare=lambda a, sp: a.startswith('OK'),
+                  known_key=lambda ln, a, sp: 'derived-collection.convex_hull/' + ln.split()[2] + '/stale',
+                  tag=lambda ln, a: ['derived:' + ln.split()[1] + ':' + ln.split()[2]])
 
     return run.finish(
         rule='a case is one protocol line = one coordinate multiset in one order through one entry point. Exhaustive: '
